@@ -1005,6 +1005,8 @@ Section Machine.
     (* DWARFInfo.get_CU_at(off) -> _cached_CU_at_offset: the bisect search finds no entry for off (only offsets of
        parsed units are ever inserted), _parse_CU_at_offset seeks to off, reads and raises; the insertions into
        _cu_offsets_map / _cu_cache come AFTER the parse, so nothing but the cursor has changed *)
+    (* the same call as DIEAt: CompileUnit.get_DIE_from_refaddr's dwarf_assert on the range raises DWARFError *)
+    | DIEAtOutside u o => d <- the_DIE u o ;; die_answer d
     | CUAtFailing off e c => (if 0 <=? c then seek S_INFO c else ret tt) ;;; fail e
     end.
 
